@@ -127,7 +127,10 @@ def run(ctx):
                         else:
                             variants = [dict(preactivation_order=False, use_group_norm=True), dict(preactivation_order=True, use_group_norm=True), dict(preactivation_order=True, use_group_norm=False)]
                         if not th:
-                            variants = variants[: 2 if si == 0 else 1]
+                            keep = variants[: 2 if si == 0 else 1]
+                            if si == 0:
+                                keep += [v for v in variants if v.get("use_batch_norm")]
+                            variants = keep
                         for v in variants:
                             for bias in (("auto", False) if (th or si == 0) else ("auto",)):
                                 s = dict(base, use_bias=bias, **v)
@@ -141,6 +144,8 @@ def run(ctx):
                                 s["square"] = not (si == 1)
                                 if si == 0 and D == 2:
                                     s["is_torus"] = [True, False]
+                                elif si == 1:
+                                    s["is_torus"] = [False] * D
                                 specs.append(s)
     jobs = [(ctx.repo, s) for s in specs]
     by = {}
